@@ -39,6 +39,9 @@ def drv_env(ctx):
     env["JAX_COMPILATION_CACHE_DIR"] = cc
     env["JAX_PERSISTENT_CACHE_MIN_COMPILE_TIME_SECS"] = "0"
     env["JAX_PERSISTENT_CACHE_MIN_ENTRY_SIZE_BYTES"] = "-1"
+    # byte code of the tree under test is cached outside that tree (./check forbids writing into it)
+    env.pop("PYTHONDONTWRITEBYTECODE", None)
+    env["PYTHONPYCACHEPREFIX"] = os.path.join(C.run_dir("C24"), "pycache")
     return env
 
 
@@ -88,7 +91,7 @@ def gen_configs(ctx):
              "n_iter": n_iter, "model": "exp"}
         c.update(kw)
         return c
-    cfgs = [base(3)]
+    cfgs = [base(2 if ctx.quick else 3)]
     if not ctx.quick:
         cfgs.append(base(4, sample_modes=["linear_resample", "nonlinear_update", "nonlinear_resample", "linear_sample"],
                          n_samples=[1, 2, 2, 2], model="cubic"))
@@ -126,6 +129,16 @@ def crash_points(ctx, ops, budget=1):
             for fr in fracs:
                 pts.append([(k, "torn", fr)])
     return pts
+
+
+def sanitize(cps, ops):
+    """Stored crash chain -> valid chain for the traced run at hand (a torn crash needs a write)."""
+    out = []
+    for i, (k, mode, frac) in enumerate(cps):
+        if mode == "torn" and not (i == 0 and k < len(ops) and ops[k][0] == "write"):
+            mode = "kill"
+        out.append((int(k), mode, float(frac)))
+    return out
 
 
 def chain_points(ctx, ops, rng, count):
@@ -271,10 +284,10 @@ class C24(C.Check):
     def wd(self, ctx, name):
         return os.path.join(ctx.run_dir(), "work", name)
 
-    def reference(self, ctx, ci, cfg):
+    def reference(self, ctx, ci, cfg, twice=True):
         with ThreadPoolExecutor(2) as ex:
             a = ex.submit(run_chain, ctx, self.wd(ctx, "ref%d_a" % ci), cfg, [], False)
-            b = ex.submit(run_chain, ctx, self.wd(ctx, "ref%d_b" % ci), cfg, [], False)
+            b = ex.submit(run_chain, ctx, self.wd(ctx, "ref%d_b" % ci), cfg, [], False) if twice else a
             ra, rb = a.result()[0], b.result()[0]
         if ra["outcome"] != "ok" or rb["outcome"] != "ok":
             raise C.MachineryError("C24: the uninterrupted reference run failed: %r" % ({k: ra.get(k) for k in ("outcome", "error", "detail")},))
@@ -303,13 +316,23 @@ class C24(C.Check):
         if os.path.isdir(cc) and len(os.listdir(cc)) > 3000:
             shutil.rmtree(cc, ignore_errors=True)
         cfgs = gen_configs(ctx)
-        corpus = ctx.corpus()
         checks, meta = [], []
         rng = ctx.rng(2400)
         modes = {}
         nontrivial = set()
-        for ci, cfg in enumerate(cfgs):
-            ref = self.reference(ctx, ci, cfg)
+        # groups: (configuration, corpus crash chains or None = full enumeration)
+        groups = []
+        for e in ctx.corpus():
+            key = json.dumps(e["case"], sort_keys=True)
+            for g in groups:
+                if g[2] == key:
+                    g[1].append((e["cps"], bool(e.get("r0", False))))
+                    break
+            else:
+                groups.append((e["case"], [(e["cps"], bool(e.get("r0", False)))], key))
+        groups += [(c, None, None) for c in cfgs]
+        for ci, (cfg, corp, _) in enumerate(groups):
+            ref = self.reference(ctx, ci, cfg, twice=corp is None)
             self.refs.append((cfg, ref))
             n = cfg["n_iter"]
             extras = extras_of(ref["ops"], n)
@@ -323,30 +346,29 @@ class C24(C.Check):
             if ref["shadow_mismatch"]:
                 res.add_broken("correspondence", "untraced file-system activity in the output directory",
                                {"files": ref["shadow_mismatch"], "cfg": cfg})
-            # 2. crash points: corpus first, then the full enumeration, then crash chains
-            pts = []
-            if ci == 0:
-                pts += [[tuple(c) for c in e["cps"]] for e in corpus
-                        if all(c[0] <= len(ref["ops"]) and (c[1] != "torn" or (c[0] < len(ref["ops"]) and ref["ops"][c[0]][0] == "write"))
-                               for c in e["cps"])]
-            pts += crash_points(ctx, ref["ops"])
-            pts += chain_points(ctx, ref["ops"], rng, 3 if ctx.quick else 10)
-            for (cfg_, ref_, cps, r0, reps) in self.run_points(ctx, ci, cfg, ref, pts):
-                checks.append(chain_check(False, extras, n, r0, cps, reps))
-                meta.append({"what": "crash chain", "cfg": cfg, "cps": cps,
-                             "pre": reps[-1]["pre"], "final_ops": reps[-1]["ops"], "outcome": reps[-1]["outcome"]})
-                for k, m, _ in cps:
-                    modes[m] = modes.get(m, 0) + 1
-                if any(0 < k < len(ref["ops"]) for k, _, _ in cps):
-                    nontrivial.add((ci, tuple(cps)))
-            # 3. a first run started with resume=True on an empty directory (common usage)
-            if not ctx.quick:
-                sub = [p for p in crash_points(ctx, ref["ops"]) if p[0][1] == "kill"][::3]
-                for (cfg_, ref_, cps, r0, reps) in self.run_points(ctx, ci, cfg, ref, sub, r0=True, tag="r"):
+            # 2. crash points: stored failing cases, or the full enumeration plus crash chains
+            runs = []
+            if corp is not None:
+                for r0 in (False, True):
+                    pts = [sanitize(cps, ref["ops"]) for cps, r in corp if r == r0]
+                    if pts:
+                        runs.append((pts, r0, "k%d" % r0))
+            else:
+                pts = crash_points(ctx, ref["ops"]) + chain_points(ctx, ref["ops"], rng, 2 if ctx.quick else 10)
+                runs.append((pts, False, "p"))
+                if not ctx.quick:
+                    # a first run started with resume=True on an empty directory (common usage)
+                    runs.append(([p for p in crash_points(ctx, ref["ops"]) if p[0][1] == "kill"][::3], True, "r"))
+            for pts, r0, tag in runs:
+                for (cfg_, ref_, cps, r0_, reps) in self.run_points(ctx, ci, cfg, ref, pts, r0=r0, tag=tag):
                     checks.append(chain_check(False, extras, n, r0, cps, reps))
-                    meta.append({"what": "crash chain, first run with resume=True", "cfg": cfg, "cps": cps,
-                                 "pre": reps[-1]["pre"], "final_ops": reps[-1]["ops"], "outcome": reps[-1]["outcome"]})
-                    nontrivial.add((ci, "r", tuple(cps)))
+                    meta.append({"what": "crash chain" + (", first run with resume=True" if r0 else ""), "cfg": cfg,
+                                 "cps": cps, "pre": reps[-1]["pre"], "final_ops": reps[-1]["ops"],
+                                 "outcome": reps[-1]["outcome"]})
+                    for k, m, _ in cps:
+                        modes[m] = modes.get(m, 0) + 1
+                    if any(0 < k < len(ref["ops"]) for k, _, _ in cps):
+                        nontrivial.add((ci, r0, tuple(cps)))
         bad = C.eval_cases(self.prop, "corr", HEADER, checks)
         for i in bad[:4]:
             d = dict(meta[i])
@@ -359,7 +381,7 @@ class C24(C.Check):
                     "and random double/triple crash chains, each executed for real and compared with the model on "
                     "directory classification, operation sequence of the restart and outcome; non-trivial = killed strictly inside the run; distinct by (configuration, crash chain)",
             "samples": [{"cps": m.get("cps"), "pre": m.get("pre"), "outcome": m.get("outcome")} for m in meta[8:11]],
-            "input_distribution": {"configurations": len(cfgs), "crash_chains": len(self.obs), "by_mode": modes,
+            "input_distribution": {"configurations": len(groups), "corpus_cases": len(groups) - len(cfgs), "crash_chains": len(self.obs), "by_mode": modes,
                                    "ops_per_run": [len(r["ops"]) for _, r in self.refs]},
             "disagreements": len(bad), "exhaustive": "all crash points of each traced run",
         })
